@@ -1,4 +1,4 @@
-package main
+package main_test
 
 // C01 — every decision is a complete, well-formed ranking.
 
